@@ -123,6 +123,52 @@ HOST_VARIANTS = (None, 'components', 'refchain')
 # attributes a host variant adds to the static description: variant -> class -> [(name, type, kind)]
 VARIANT_ATTRS = {'refchain': {'A': [('B_A_Id', 'unique_id', 'ref')]}}
 
+# 'handles' (C06, round 11): the default host plus everything needed to reach an instance through EVERY kind of handle expression
+# the grammar offers in front of ".<name>" -- an instance variable, self, selected, a parameter declared inst_ref<Class>, an
+# element of an array (parameter, attribute) of such handles, an attribute declared inst_ref<Class>, and chains of these -- and
+# attributes whose names the translation knows from elsewhere: `length` (what the translation takes for the length of an array
+# when nothing else fits), declared with another type in each class, `Length`, `sender`.  Arrays of core-typed elements
+# (parameter ns, attribute A.Nums, next to the transient arrays of the prelude) let the genuine <array>.length be read too.
+HOST_VARIANTS += ('handles',)
+VARIANT_ATTRS['handles'] = {
+    'A': [('length', 'real', 'base'), ('Length', 'string', 'base'), ('sender', 'boolean', 'base'), ('Peer', 'inst_ref<A>', 'base'),
+          ('Mate', 'inst_ref<B>', 'base'), ('Via', 'inst_ref<C>', 'base'), ('Peers', 'inst_ref<A>', 'base'), ('Nums', 'integer', 'base')],
+    'B': [('length', 'Label', 'base'), ('Owner', 'inst_ref<A>', 'base')],
+    'C': [('length', 'integer', 'base')],
+}
+# parameters a host variant appends to the callable of a home: variant -> home -> [(name, type)]
+VARIANT_PARAMS = {'handles': dict((home, [('h', 'inst_ref<A>'), ('hb', 'inst_ref<B>'), ('hs', 'inst_ref<A>'), ('ns', 'integer')])
+                                  for home in ('function', 'bridge', 'operation'))}
+# array dimensions (element counts) of attributes and parameters: variant -> ('attr', class, name) | ('param', name) -> [counts]
+VARIANT_DIMS = {'handles': {('attr', 'A', 'Peers'): [3], ('attr', 'A', 'Nums'): [4], ('param', 'hs'): [2], ('param', 'ns'): [5]}}
+
+
+def home_params_of(home, variant=None):
+    '''Parameters (name, type) of the home in the host of the given variant, in declaration order.'''
+    return HOME_PARAMS[home] + VARIANT_PARAMS.get(variant, {}).get(home, [])
+
+
+# attribute names the translation (bridgepoint/prebuild.py) compares names with: `length` in accept_FieldAccessNode, `sender` and
+# `self` in find_symbol (`self` is a keyword and cannot name an attribute); `Length` differs from the first in case only
+SPECIAL_ATTRIBUTE_NAMES = ('length', 'Length', 'sender')
+
+
+def handle_kind(h):
+    '''Kind of the expression in front of ".<name>" or "[...]": variable | self | selected | parameter | attribute-of-<kind> |
+    element-of-<kind> (kinds nest: element-of-attribute-of-parameter).'''
+    cls = h['cls']
+    if cls == 'FieldAccessNode':
+        return 'attribute-of-' + handle_kind(h['fields']['handle'])
+    if cls == 'IndexAccessNode':
+        return 'element-of-' + handle_kind(h['fields']['handle'])
+    return {'VariableAccessNode': 'variable', 'SelfAccessNode': 'self', 'SelectedAccessNode': 'selected',
+            'ParamAccessNode': 'parameter'}.get(cls, cls)
+
+
+def dims_of(variant, *key):
+    '''Number of array dimensions of an attribute ('attr', class, name) or a home parameter ('param', name).'''
+    return len(VARIANT_DIMS.get(variant, {}).get(key, ()))
+
 
 def class_attrs(kl, variant=None):
     '''Ordered attributes (name, declared type, kind) of the class in the host of the given variant.'''
@@ -226,6 +272,15 @@ def build_host(m, variant=None):
             assert syc.Previous_Const_ID == prev_syc[gname].Const_ID, 'host: R1505 chained the wrong way'
         prev_syc[gname] = syc
 
+    def dimensions(inst, rel_id, *key):
+        '''The S_DIM instances of an attribute or parameter the variant declares as an array (none in the other variants).'''
+        for n, count in enumerate(VARIANT_DIMS.get(variant, {}).get(key, ())):
+            rel(m.new('S_DIM', elementCount=count, dimensionCount=n), inst, rel_id)
+
+    def home_parameters(home, name, params):
+        '''The declared parameters, followed -- for the callable of a home -- by the ones the variant appends.'''
+        return params + (VARIANT_PARAMS.get(variant, {}).get(home, []) if name == HOME_CALLABLE[home] else [])
+
     def component(own, retype):
         '''Everything an action refers to through its component: classes, associations, functions, the external entity
         and the operations.  own: the component of the four homes; retype: declared type -> type declared here.'''
@@ -257,6 +312,7 @@ def build_host(m, variant=None):
                     rel(prev, o_attr, 103, 'precedes')
                 prev = o_attr
                 attrs[kl, name] = o_attr
+                dimensions(o_attr, 120, 'attr', kl, name)
                 if kind == 'ref':
                     continue
                 o_battr = m.new('O_BATTR')
@@ -374,10 +430,12 @@ def build_host(m, variant=None):
             pe(s_sync, 1)
             rel(s_sync, dt(retype(ret)), 25)
             prev = None
-            for pname, pty in params:
+            for pname, pty in home_parameters('function', name, params):
                 s_sparm = m.new('S_SPARM', Name=pname, By_Ref=0)
                 rel(s_sparm, s_sync, 24)
                 rel(s_sparm, dt(retype(pty)), 26)
+                if name == HOME_CALLABLE['function']:
+                    dimensions(s_sparm, 52, 'param', pname)
                 if prev is not None:
                     rel(prev, s_sparm, 54, 'precedes')
                 prev = s_sparm
@@ -393,10 +451,12 @@ def build_host(m, variant=None):
             rel(s_brg, s_ee, 19)
             rel(s_brg, dt(retype(ret)), 20)
             prev = None
-            for pname, pty in params:
+            for pname, pty in home_parameters('bridge', name, params):
                 s_bparm = m.new('S_BPARM', Name=pname, By_Ref=0)
                 rel(s_bparm, s_brg, 21)
                 rel(s_bparm, dt(retype(pty)), 22)
+                if name == HOME_CALLABLE['bridge']:
+                    dimensions(s_bparm, 49, 'param', pname)
                 if prev is not None:
                     rel(prev, s_bparm, 55, 'precedes')
                 prev = s_bparm
@@ -414,10 +474,12 @@ def build_host(m, variant=None):
                 rel(prev_tfr, o_tfr, 125, 'precedes')
             prev_tfr = o_tfr
             prev = None
-            for pname, pty in params:
+            for pname, pty in home_parameters('operation', name, params):
                 o_tparm = m.new('O_TPARM', Name=pname, By_Ref=0)
                 rel(o_tparm, o_tfr, 117)
                 rel(o_tparm, dt(retype(pty)), 118)
+                if name == HOME_CALLABLE['operation']:
+                    dimensions(o_tparm, 121, 'param', pname)
                 if prev is not None:
                     rel(prev, o_tparm, 124, 'precedes')
                 prev = o_tparm
@@ -425,7 +487,7 @@ def build_host(m, variant=None):
                 host.homes['operation'] = o_tfr
 
 
-    if variant in (None, 'refchain'):
+    if variant in (None, 'refchain', 'handles'):
         component(True, lambda t: t)
     else:
         s_sys = m.new('S_SYS', Name='host')
@@ -594,6 +656,21 @@ class Analysis(object):
             l['t'] = v.t
             l['claim'] = 'variable'
             self.features.add('assign:scalar')
+        elif cls == 'FieldAccessNode' and self.variant == 'handles':
+            # an attribute of the instance ANY handle expression yields (selected has no place on the left)
+            ta, da = self.hx(l, scope)
+            attr = l.get('attr')
+            if da or attr is None or handle_kind(l).endswith('selected'):
+                raise IllFormed('not an attribute of an instance')
+            ok = attr[3] == 'base' and attr[1] != 'Id' or \
+                (attr[3] == 'derived' and self.home == 'attribute' and l['fields']['handle']['cls'] == 'SelfAccessNode')
+            if not ok:
+                raise IllFormed('attribute is not writable here')
+            if base_t(ta) != base_t(tr):
+                raise IllFormed('attribute assigned a value of another type')
+            self.features.add('assign:attribute')
+            self.features.add('attribute-written-through:%s:%s' % (handle_kind(l['fields']['handle']),
+                                                                   attr[1] if attr[1] in SPECIAL_ATTRIBUTE_NAMES else 'other'))
         elif cls == 'FieldAccessNode':
             h = l['fields']['handle']
             th = self.expr(h, scope)
@@ -881,9 +958,11 @@ class Analysis(object):
         return inst_t(self.selected[-1])         # not claimed (the statement does not list it)
 
     def e_ParamAccessNode(self, e, scope):
-        p = [t for n, t in HOME_PARAMS[self.home] if n == self.f(e, 'variable_name')]
+        p = [t for n, t in home_params_of(self.home, self.variant) if n == self.f(e, 'variable_name')]
         if not p:
             raise IllFormed('no such parameter in this home')
+        if dims_of(self.variant, 'param', self.f(e, 'variable_name')) and not e.get('as_array'):
+            raise IllFormed('array parameter read as a whole')
         self.features.add('param-read')
         e['claim'] = 'parameter'
         self.udt_feature(p[0], 'param-read')
@@ -895,7 +974,81 @@ class Analysis(object):
             if base_t(t) != dict(USER_TYPES)[t]:
                 self.features.add('udt:two-level')
 
+    # -- host variant 'handles': ".<name>" behind every kind of handle expression; arrays in parameters and attributes ------
+    def hx(self, e, scope):
+        '''(type, array dimensions left) of an access expression on the host variant 'handles'; annotates like expr().
+        <array>.length (an array of core-typed elements, indexed less often than it has dimensions) is the integer the
+        translation represents as V_ALV; <instance>.<attribute> is an attribute read of the declared type whatever the
+        attribute is called and whatever expression yields the instance.'''
+        cls = e['cls']
+        dims = 0
+        if cls == 'VariableAccessNode':
+            name = self.f(e, 'variable_name')
+            v = scope.lookup(name)
+            if v is None:
+                raise IllFormed('undeclared variable %s' % name, name)
+            e['var'] = v
+            e['claim'] = 'variable'
+            t, dims = v.t, v.dims
+        elif cls == 'ParamAccessNode':
+            e['as_array'] = True
+            t = self.e_ParamAccessNode(e, scope)
+            dims = dims_of(self.variant, 'param', self.f(e, 'variable_name'))
+        elif cls in ('SelfAccessNode', 'SelectedAccessNode'):
+            t = getattr(self, 'e_' + cls)(e, scope)
+        elif cls == 'IndexAccessNode':
+            t, dh = self.hx(e['fields']['handle'], scope)
+            if not dh:
+                raise IllFormed('element of something that is not an array')
+            if self.expr(e['fields']['expression'], scope) != 'integer':
+                raise IllFormed('index is not an integer')
+            dims = dh - 1
+            e['claim'] = None
+            if not dims:
+                self.features.add('element-read:' + handle_kind(e['fields']['handle']))
+        elif cls == 'FieldAccessNode':
+            h = e['fields']['handle']
+            th, dh = self.hx(h, scope)
+            name = self.f(e, 'name')
+            if dh:
+                if name != 'length':
+                    raise IllFormed('field of an array')
+                if class_of(th):
+                    # kept out -- finding on the unchanged tree: the length of an array of instance handles is translated as
+                    # a read of the attribute of that name (V_AVL of its type), or fails when the class has none
+                    raise IllFormed('length of an array of instance handles')
+                e['claim'] = 'array-length'
+                e['vkind'] = 'V_ALV'
+                self.features.add('array-length:' + handle_kind(h))
+                t = 'integer'
+            else:
+                k = class_of(th)
+                if not k or k[1]:
+                    raise IllFormed('attribute of something else than an instance')
+                attr = [a for a in class_attrs(k[0], self.variant) if a[0] == name]
+                if not attr:
+                    raise IllFormed('unknown attribute')
+                e['claim'] = 'attribute'
+                e['attr'] = (k[0],) + tuple(attr[0])
+                self.features.add('attribute-read:' + attr[0][2])
+                self.features.add('attribute-through:%s:%s' % (handle_kind(h), name if name in SPECIAL_ATTRIBUTE_NAMES else 'other'))
+                self.udt_feature(attr[0][1], 'attribute-read')
+                t, dims = attr[0][1], dims_of(self.variant, 'attr', k[0], name)
+        else:
+            raise IllFormed('unsupported access expression')
+        e['t'] = t
+        e.setdefault('claim', None)
+        return t, dims
+
+    def hx_value(self, e, scope):
+        t, dims = self.hx(e, scope)
+        if dims:
+            raise IllFormed('array read as a whole')
+        return t
+
     def e_FieldAccessNode(self, e, scope):
+        if self.variant == 'handles':
+            return self.hx_value(e, scope)
         h = e['fields']['handle']
         if h['cls'] not in ('VariableAccessNode', 'SelfAccessNode', 'SelectedAccessNode'):
             raise IllFormed('unsupported attribute access')
@@ -911,6 +1064,8 @@ class Analysis(object):
         return attr[0][1]
 
     def e_IndexAccessNode(self, e, scope):
+        if self.variant == 'handles':
+            return self.hx_value(e, scope)
         idx = []
         n = e
         while n['cls'] == 'IndexAccessNode':
@@ -2349,6 +2504,8 @@ class Walk(object):
                                              for how, exp, name in hist)
         if self.task.get('host'):
             after += ', host variant %r (build_host(m, %r))' % (self.task['host'], self.task['host'])
+        if self.task.get('family') == 'handles':
+            sig = 'handles:' + sig
         self.sub.violation('c06:' + sig, case_of(self.task),
                            '%s  [program %r, %s home, layout %s%s]' % (message, self.text, self.task['home'],
                                                                         self.task.get('layout', 'default'), after),
@@ -2682,18 +2839,26 @@ class Walk(object):
         elif cls.endswith('InvocationNode'):
             kind = INVOCATION_VAL[e['kind']][0]
         else:
-            kind = VALUE_KIND[cls]
+            kind = e.get('vkind') or VALUE_KIND[cls]            # vkind: <array>.length is a FieldAccessNode too (V_ALV)
         found = self.sub801.get(v, [])
         dt = self.nav1(v, 'S_DT', 820)
         e['observed_t'] = dt.Name if dt is not None else None
-        if not self.check([k for k, _ in found] == [kind], 'structure:value-kind',
-                          'expression %r is a %s in the population' % (self.src(e), [k for k, _ in found]), kind, [k for k, _ in found]):
+        kind_ok = self.check([k for k, _ in found] == [kind], 'structure:value-kind',
+                             'expression %r is a %s in the population' % (self.src(e), [k for k, _ in found]), kind, [k for k, _ in found])
+        if not kind_ok and self.task.get('family') != 'handles':
             return
-        x = found[0][1]
+        x = found[0][1] if kind_ok else None
         got = (v.LineNumber, v.StartPosition, v.EndPosition)
         self.check(got == self.pos(e), 'position:value:%s' % kind,
                    'V_VAL of %r carries line/start/end column %s, its source text has %s' % (self.src(e), got, self.pos(e)), self.pos(e), got)
         claim = e.get('claim')
+        if cls == 'FieldAccessNode' and claim:
+            # reads / writes of attributes named like something the translation knows, and genuine array lengths: counted per
+            # kind of the expression in front of the dot (the vacuity guard of the handles family)
+            if claim == 'array-length':
+                self.sub.count('array_length:' + handle_kind(e['fields']['handle']))
+            elif e['fields']['name'] in SPECIAL_ATTRIBUTE_NAMES:
+                self.sub.count('special_attribute:' + handle_kind(e['fields']['handle']))
         if claim:
             want = e['t']
             if claim == 'variable' and var is not None and not var.claimed:
@@ -2704,13 +2869,15 @@ class Walk(object):
                            'expression %r is related (R820) to the data type %s; under OAL typing it is %s (%s)' %
                            (self.src(e), e['observed_t'], want, claim), want, e['observed_t'])
                 self.same_type(dt, want, 'type:%s' % claim, 'expression %r (R820)' % self.src(e))
+        if not kind_ok:
+            return
         f = e['fields']
         if cls == 'VariableAccessNode':
             self.var_ref(var, self.nav1(x, 'V_VAR', VAR_USE[kind]))
         elif cls == 'SelfAccessNode':
             self.var_ref(None, self.nav1(x, 'V_VAR', 808))
         elif cls == 'FieldAccessNode':
-            self.value(f['handle'], self.nav1(x, 'V_VAL', 807))
+            self.value(f['handle'], self.nav1(x, 'V_VAL', 840 if kind == 'V_ALV' else 807))
         elif cls == 'IndexAccessNode':
             self.value(f['handle'], self.nav1(x, 'V_VAL', 838))
             self.value(f['expression'], self.nav1(x, 'V_VAL', 839))
